@@ -63,6 +63,13 @@ partial def toExpr (e : Sx) : Conv Expr :=
   | .list [.atom "concat", sep, a] => do pure (.prim .concat [← toExpr sep, ← toExpr a])
   | .list (.atom "ctor" :: .atom c :: args) => do pure (.prim (.ctor "" c) (← args.mapM toExpr))
   | .list (.atom "matchu" :: tgt :: arms) => do pure (.matchE (← toExpr tgt) (← arms.mapM toArm))
+  | .list (.atom "matchs" :: tgt :: arms) => do pure (.matchSE (← toExpr tgt) (← arms.mapM toSArm))
+  | .list (.atom "interp" :: parts) => do
+    let ps ← parts.mapM (fun part => match part with
+      | .list [.atom "t", t] => do pure (some (← strOf t), none)
+      | .list [.atom "h", .atom x] => pure (none, some (Expr.var x))
+      | _ => throw "interp-part")
+    pure (.prim (.interp (ps.map (·.1))) (ps.filterMap (·.2)))
   | .list [.atom "println", a] => do pure (.prim .println [← toExpr a])
   | .list [.atom "printf1", f, a] => do pure (.prim .printf1 [.lit (.str (← strOf f)), ← toExpr a])
   | .list [.atom "sprintf1", f, a] => do pure (.prim .sprintf1 [.lit (.str (← strOf f)), ← toExpr a])
@@ -75,6 +82,14 @@ partial def toArm (a : Sx) : Conv Arm :=
   | .list [.atom pat, .atom bind, body] => do pure (.mk pat (bindOf bind) (← toBody body))
   | _ => throw "arm"
 
+partial def toSArm (a : Sx) : Conv SArm :=
+  match a with
+  | .list [.atom pat, _, body] =>
+    if pat == "_" then do pure (.mk none (← toBody body))
+    else if pat.startsWith "$" then throw "matchs-variable-arm"
+    else do pure (.mk (some (← strOf (.atom pat))) (← toBody body))
+  | _ => throw "arm"
+
 /-- an expression in body position (function / branch / arm / lambda body) -/
 partial def toBody (e : Sx) : Conv Body :=
   match e with
@@ -83,6 +98,7 @@ partial def toBody (e : Sx) : Conv Body :=
     let .mk ss2 tail ← toBody fin
     pure (.mk (ss ++ ss2) tail)
   | .list (.atom "matchu" :: tgt :: arms) => do pure (.mk [] (.matchT (← toExpr tgt) (← arms.mapM toArm)))
+  | .list (.atom "matchs" :: tgt :: arms) => do pure (.mk [] (.matchST (← toExpr tgt) (← arms.mapM toSArm)))
   | .list [.atom "ifonly", c, t] => do
     -- a unit-valued body that is just an if-only statement
     pure (.mk [.ifonly (← toExpr c) (← toBody t)] (.ret (.lit .unit)))
